@@ -21,6 +21,11 @@ use crate::src::{esc, filler};
 
 static SOCK_COUNTER: AtomicU64 = AtomicU64::new(0);
 
+thread_local! {
+    /// order of add_kill_switch and start_server for worlds created from now on (C18 varies it)
+    pub static KILL_AFTER_START: std::cell::Cell<bool> = std::cell::Cell::new(false);
+}
+
 pub fn scratch_dir() -> PathBuf {
     let d = match std::env::var("MHV_SCRATCH") {
         Ok(p) => PathBuf::from(p),
@@ -220,10 +225,17 @@ impl World {
         let _ = std::fs::remove_file(&path);
         let base = fd_set();
         let mut server = HttpServer::new(&path).map_err(|e| format!("HttpServer::new: {:?}", e))?;
+        // the kill switch may be registered before or after the server is started
+        let after_start = KILL_AFTER_START.with(|c| c.get());
+        if after_start {
+            server.start_server().map_err(|e| format!("start_server: {:?}", e))?;
+        }
         if let Some(k) = kill_for_server {
             server.add_kill_switch(k).map_err(|e| format!("add_kill_switch: {:?}", e))?;
         }
-        server.start_server().map_err(|e| format!("start_server: {:?}", e))?;
+        if !after_start {
+            server.start_server().map_err(|e| format!("start_server: {:?}", e))?;
+        }
         // the kill switch handed to the server is part of the harness' accounting base
         let mut base = base;
         if with_kill {
